@@ -56,6 +56,7 @@ class World:
         self.on_parallel_call: List[Callable[[int, int], None]] = []  # (n_jobs, n_tasks)
         self.modstate = MODSTATE.fresh()   # the parent process of this run starts from import-time state
         MODSTATE.bind(self.modstate)
+        MODSTATE.clear_function_caches()
 
     # -- identity seam -----------------------------------------------------
     def id_fn(self) -> Callable[[Any], int]:
